@@ -52,9 +52,11 @@ def entry(vtype, key: str, parent_tbl, parent_off, payload: bytes, *, flags=0, p
     return hdr + kb + payload + bytes(pad)
 
 
-def free_entry(size):
+def free_entry(size, flags=0, stale_key=b""):
+    """A released entry: type Free (low byte); flag bits and the old key / data may still be there."""
     assert size >= 21
-    return struct.pack("<HIHIIIB", T_FREE, size, 0, 0, 0, 0, 0) + bytes(size - 21)
+    body = (stale_key + b"\0")[:size - 21] if stale_key else b""
+    return struct.pack("<HIHIIIB", T_FREE | (flags << 8), size, 0, 0, 0, 0, len(body)) + body.ljust(size - 21, b"\xEE" if stale_key else b"\0")
 
 
 class Layout:
@@ -175,7 +177,10 @@ def plan_tables(nodes, *, ntables_free=(), stale=(), newer_first=True, big_thres
             out = []
             for e in seq_entries:
                 if e[0] == "free":
-                    out.append(free_entry(e[1]))
+                    if flag_rng is not None and flag_rng.random() < 0.6:
+                        out.append(free_entry(e[1], flags=flag_rng.choice([1, 2, 3]), stale_key=b"stale-key"))
+                    else:
+                        out.append(free_entry(e[1]))
                 else:
                     _, n, payload, flags, pad = e
                     pt, po = off_of[n["parent"]] if n["parent"] else (0, 0)
